@@ -6,6 +6,14 @@ import numpy as np
 
 
 def replay_form(p: dict) -> int:
+    if p.get("kind") == "purity":
+        from .kernelprops import replay_purity
+
+        return replay_purity(p)
+    if p.get("kind") == "bounds":
+        from .kernelprops import replay_bounds
+
+        return replay_bounds(p)
     from . import cfront, corpus, gen, ksym, uflref, formcheck
     from .poly import Ctx, CPoly
 
